@@ -103,11 +103,11 @@ def _plots_module(ck, prog):
     m = prog.mod(PLOTS)
     n = 0
     for name, f in sorted(m.funcs.items()):
+        if name.startswith("_"):
+            continue                                    # private helpers are followed from the public entry points
         calls = _calls(prog, f, lambda c: c.mod.rel == PLT)
         construct = f.mod.relpath + ":" + f.qual
-        if len(calls) != 1:
-            ck.ob("BIND", construct, False, expected="one forwarding call into the backend", found=len(calls), slot="forwards", where=f.loc())
-            continue
+        ck.shape(len(calls) == 1, "%s: one forwarding call into the plotting backend" % name, f.loc())
         call, callee = calls[0]
         req = [p for p in f.params() if p in NAMED]
         forward(ck, prog, f, call, required=req)
@@ -135,6 +135,8 @@ def _plot2_lists(ck, prog, f, call):
         {"hydropathy_list": "get_uversky_hydropathy", "mean_net_charge_list": "get_mean_net_charge"}
     loops = [s for s in f.body() if isinstance(s, ast.For)]
     got = {}
+    ck.shape(len(loops) == 1 and unparse(loops[0].iter) == "SeqParam_list" and isinstance(loops[0].target, ast.Name),
+             "%s: coordinate lists built in one loop over the objects" % f.name, f.loc())
     if len(loops) == 1 and unparse(loops[0].iter) == "SeqParam_list":
         v = loops[0].target.id
         for s in loops[0].body:
@@ -143,6 +145,7 @@ def _plot2_lists(ck, prog, f, call):
                 a = s.value.args[0]
                 if isinstance(a, ast.Call) and isinstance(a.func, ast.Attribute) and unparse(a.func.value) == v and not a.args:
                     got[lst] = a.func.attr
+    ck.shape(set(got) == set(want), "%s: both coordinate lists appended from the loop variable's getters" % f.name, f.loc())
     ck.ob("PROV", construct, got == want, expected=want, found=got, slot="coordinate-lists", where=f.loc(),
           note="one coordinate pair per object, from its own getters, in the order given")
     # and these lists are what is passed as the coordinates
@@ -232,9 +235,21 @@ def _backend_entry(ck, prog):
                 okr = bool(rv) and rv[0].value is not None and unparse(rv[0].value) in assigned
             ck.ob("GETFIG", construct, okr, expected="getFig returns the finalised figure", found=okr, slot="returns-finalised", where=f.loc())
         else:
-            saves = [n for n in ast.walk(f.node) if isinstance(n, ast.Call) and getattr(n.func, "attr", "") == "savefig"]
-            ok = bool(saves) and all(s.args and unparse(s.args[0]) == "filename" for s in saves)
-            ck.ob("PROV", construct, ok, expected="savefig(filename, ...)", found=[unparse(s)[:60] for s in saves], slot="filename", where=f.loc())
+            saves = [(f, n) for n in ast.walk(f.node) if isinstance(n, ast.Call) and getattr(n.func, "attr", "") == "savefig"]
+            names = {"filename"}
+            if not saves:
+                # the write may live in a small helper that is handed the file name
+                for n, c in _calls(prog, f, lambda cc: cc.mod.rel == PLT):
+                    _, b = bind.bind(prog, f, n)
+                    for formal, actual in (b or {}).items():
+                        if isinstance(actual, ast.Name) and actual.id == "filename":
+                            hs = [(c, x) for x in ast.walk(c.node) if isinstance(x, ast.Call) and getattr(x.func, "attr", "") == "savefig"]
+                            if hs:
+                                saves += hs
+                                names.add(formal)
+            ck.shape(bool(saves), "%s: a savefig call (directly or in a helper that receives the file name)" % name, f.loc())
+            ok = all(sv.args and unparse(sv.args[0]) in names for _, sv in saves)
+            ck.ob("PROV", construct, ok, expected="savefig(filename, ...)", found=[unparse(sv)[:60] for _, sv in saves], slot="filename", where=f.loc())
     ck.count("backend entry points", len(spec))
 
 
